@@ -35,6 +35,7 @@ const vNS = "metallb-system"
 type vLoadObjs struct {
 	Pools []struct {
 		Name  string   `json:"name"`
+		Lab   string   `json:"lab"`
 		Cidrs []int    `json:"cidrs"`
 		Ns    []string `json:"ns"`
 		Sel   bool     `json:"sel"`
@@ -70,6 +71,7 @@ type vLoadObjs struct {
 		Comms []string `json:"comms"`
 		Peers []string `json:"peers"`
 		Nsel  []string `json:"nsel"`
+		Psel  []string `json:"psel"`
 	} `json:"bgpadvs"`
 	Communities []struct {
 		Name    string `json:"name"`
@@ -118,6 +120,9 @@ func vLoadResources(o vLoadObjs) config.ClusterResources {
 	var r config.ClusterResources
 	for _, p := range o.Pools {
 		cr := v1beta1.IPAddressPool{ObjectMeta: metav1.ObjectMeta{Name: p.Name, Namespace: vNS}}
+		if p.Lab != "" {
+			cr.Labels = map[string]string{"grp": p.Lab}
+		}
 		for _, c := range p.Cidrs {
 			cr.Spec.Addresses = append(cr.Spec.Addresses, vLoadCidr(c))
 		}
@@ -170,6 +175,9 @@ func vLoadResources(o vLoadObjs) config.ClusterResources {
 		cr.Spec.Communities = append(cr.Spec.Communities, a.Comms...)
 		cr.Spec.Peers = append(cr.Spec.Peers, a.Peers...)
 		cr.Spec.NodeSelectors = vZoneSelectors(a.Nsel)
+		for _, v := range a.Psel {
+			cr.Spec.IPAddressPoolSelectors = append(cr.Spec.IPAddressPoolSelectors, metav1.LabelSelector{MatchLabels: map[string]string{"grp": v}})
+		}
 		r.BGPAdvs = append(r.BGPAdvs, cr)
 	}
 	for _, c := range o.Communities {
